@@ -21,7 +21,16 @@ fn convert(bytes: &[u8]) -> Result<(Model, usize), String> {
 }
 
 fn prefixes(ctx: &mut Ctx, bytes: &[u8], consumed: usize, what: &str) -> bool {
-    for k in 0..consumed {
+    // complete enumeration for files up to 20 kB; beyond that the head, the tail and an even sample
+    let ks: Vec<usize> = if consumed <= 20_000 {
+        (0..consumed).collect()
+    } else {
+        let mut v: Vec<usize> = (0..256).collect();
+        v.extend((0..300).map(|i| 256 + i * (consumed - 512) / 300));
+        v.extend(consumed - 256..consumed);
+        v
+    };
+    for k in ks {
         let r = guard(|| convert(&bytes[..k]).is_ok());
         ctx.eval(1);
         match r {
@@ -83,6 +92,8 @@ pub fn run_c17(ctx: &mut Ctx, from: u64, to: u64) {
             J::obj(kv)
         };
         ctx.flag("files_without_char_or_type_ngram_section(only_no_panic_asserted)", spec.char_ngrams.is_empty() || spec.type_ngrams.is_empty());
+        ctx.flag("files_with_char_ids_above_32767", spec.char_map.len() > 32767);
+        ctx.flag("files_with_word_of_255_or_more_chars", spec.words.iter().any(|w| w.0.len() >= 255));
         ctx.flag("files_with_type_byte_0x04", spec.type_ngrams.iter().any(|g| g.0.contains(&'\u{4}')));
         ctx.flag("files_with_several_dictionaries", spec.n_dicts >= 2);
         ctx.flag("files_with_tag_slots", spec.n_tags > 0);
